@@ -12,6 +12,7 @@ import (
 	"io"
 	"net/http/httputil"
 	"strings"
+	"sync"
 	"testing"
 
 	"github.com/valyala/bytebufferpool"
@@ -51,6 +52,42 @@ func (e *vpC34Enc) lastLineEnd() int {
 		n += len(e.sizeLines[i]) + 2 + c + 2
 	}
 	return n + len(e.sizeLines[len(e.chunks)]) + 2
+}
+
+// isChunkBoundary: cut is 0 or lies right behind the CRLF that ends a chunk.
+func (e *vpC34Enc) isChunkBoundary(cut int) bool {
+	n := 0
+	if cut == 0 {
+		return true
+	}
+	for i, c := range e.chunks {
+		n += len(e.sizeLines[i]) + 2 + c + 2
+		if n == cut {
+			return true
+		}
+	}
+	return false
+}
+
+const vpC34KeyStreamEOF = "C34/request-stream-clean-eof-at-chunk-boundary"
+
+var (
+	vpC34StreamEOFOnce sync.Once
+	vpC34StreamEOFIs   bool
+)
+
+// vpC34StreamEOFPresent: "3\r\nabc\r\n" followed by end of input, read through requestStream.
+func vpC34StreamEOFPresent() bool {
+	vpC34StreamEOFOnce.Do(func() {
+		out := vpC34ReadVia(vpC34PathStreamFn, []byte("3\r\nabc\r\n"), nil, false, 4096, []int{64})
+		vpC34StreamEOFIs = out.ok
+		if out.ok {
+			vpProbe(vpC34KeyStreamEOF, true, fmt.Sprintf("requestStream over \"3\\r\\nabc\\r\\n\"+EOF returns %q and then io.EOF (a complete body) although no last-chunk was received", out.body))
+		} else {
+			vpProbe(vpC34KeyStreamEOF, false, fmt.Sprintf("requestStream now fails with %v when the input ends at a chunk boundary", out.err))
+		}
+	})
+	return vpC34StreamEOFIs
 }
 
 var vpC34Confusers = []string{"\r\n", "0\r\n\r\n", "\r\n0\r\n\r\n", "5\r\nhello\r\n", "\r", "\n", "ffffffffffffffff\r\n", ";ext\r\n", "GET / HTTP/1.1\r\n\r\n"}
@@ -469,6 +506,7 @@ func vpC34ShortS(p []string) []string {
 // the all-single-bytes delivery are enumerated for the two reader functions, with a 16-byte and a
 // 4096-byte read buffer. Truncations at every offset must never be reported as a complete body.
 func TestVP_C34_ChunkedReadEverySplit(t *testing.T) {
+	vpC34StreamEOFPresent()
 	rapid.Check(t, func(t *rapid.T) {
 		var e *vpC34Enc
 		for {
@@ -526,6 +564,10 @@ func TestVP_C34_ChunkedReadEverySplit(t *testing.T) {
 				// truncation at every offset before the last-chunk line is complete: never a success
 				if ref.ok {
 					for cut := 0; cut < e.lastLineEnd(); cut++ {
+						if path == vpC34PathStreamFn && e.isChunkBoundary(cut) && vpKnownOpen(vpC34KeyStreamEOF) && vpC34StreamEOFPresent() {
+							vpExclude(vpC34KeyStreamEOF)
+							continue
+						}
 						got := vpC34ReadVia(path, enc[:cut], nil, false, bufSize, cons)
 						runs++
 						if got.ok {
